@@ -346,6 +346,20 @@ func keyOracle(r *rand.Rand, n int, tier string, infile string) (cases int, fail
 			fail("quicswarm fingerprint is not the hash of the canonical key encoding oid=%s", arcsStr(arcs))
 		}
 	}
+	// two different keys whose (object identifier text, key bytes) run together to the same string: "1.3.101.11"+"2"+X and
+	// "1.3.101.112"+X, "1.3.101"+".1"+X and "1.3.101.1"+X. Whatever one of them was given, the other must still get the
+	// hash of ITS canonical encoding (a fingerprint is a function of the key alone, not of what was fingerprinted before).
+	checkRunTogether := func(arcs []int, d int, x []byte) {
+		last := arcs[len(arcs)-1]
+		longer := append(append([]int{}, arcs[:len(arcs)-1]...), last*10+d)
+		deeper := append(append([]int{}, arcs...), d)
+		checkKey(arcs, append([]byte(strconv.Itoa(d)), x...))
+		checkKey(longer, x)
+		checkKey(arcs, append([]byte("."+strconv.Itoa(d)), x...))
+		checkKey(deeper, x)
+		checkKey(longer, x)
+		checkKey(arcs, append([]byte(strconv.Itoa(d)), x...))
+	}
 	checkEq := func(a1 []int, d1 []byte, a2 []int, d2 []byte) {
 		cases++
 		k1 := x509.PublicKey{Algorithm: oids.New(a1...), Data: d1}
@@ -383,6 +397,9 @@ func keyOracle(r *rand.Rand, n int, tier string, infile string) (cases int, fail
 		checkKey(a1, d1)
 		checkEq(a1, d1, genArcs(r, true), d1)
 		checkEq(a1, d1, a1, append(append([]byte{}, d1...), 0))
+		if i%8 == 0 && len(a1) >= 3 && a1[len(a1)-1] < 1<<26 {
+			checkRunTogether(a1, 1+r.Intn(9), genKeyData(r))
+		}
 	}
 	return cases, fails
 }
